@@ -12,7 +12,7 @@ RULE = ("(a) EXACT by choice-point enumeration: for k in 1..3, n <= k+4, p = j/m
         "default p = 1/k and p in {0, 1}) every outcome of the library's draws is executed (random() walks the m grid cells, "
         "randrange(k) all k slots, leaf probabilities multiplied as rationals) and for EVERY prefix length n' <= n and every arrival t "
         "P(t retained at n') must EQUAL p(1-p/k)^(n'-t) (t > k) resp. (1-p/k)^(n'-k) (t <= k) as rationals - which includes P(new "
-        "arrival present right after it arrived) = p; the slot law P(slot s | entered) = 1/k is checked on the first replacement; half of the configurations feed EQUAL observations (low-cardinality stream, arrivals identified by their stored targets). "
+        "arrival present right after it arrived) = p; the slot law P(slot s | entered) = 1/k is checked on the first replacement; in a third of the configurations the storage is copied (copy.deepcopy / copy.copy) after k or k+1 arrivals and the COPY carries on - same law, same p; half of the configurations feed EQUAL observations (low-cardinality stream, arrivals identified by their stored targets). "
         "(b) Monte-Carlo (exact binomial tails, two stages, delta 1e-9/1e-6) for off-grid p drawn by Hypothesis, larger k/n and the "
         "explainers' default (k=100, p=1/100). (c) Scripted: with p = 1 EVERY script of draws (including u = 0.0 and u = 1-2^-53) stores "
         "the newest arrival - the clause TreeStorage relies on. Non-trivial: n >= k+2 and 0 < p < 1; distinct = (k, n, p, outcome path) "
@@ -21,7 +21,7 @@ ASSUMPTIONS = ["uniformity of CPython's randrange/_randbelow and of random() (th
                "Monte-Carlo part: deviations below the reported minimal detectable effect pass"]
 
 
-DUPLICATES = {'on': False}
+DUPLICATES = {'on': False, 'fork': None}
 
 
 def law(k, p, n, t):
@@ -41,7 +41,12 @@ def drive(k, p, n):
         s = GeometricReservoirStorage(k, p, dup) if dup else GeometricReservoirStorage(k, p)   # positional, documented order
     hist = []
     first_slot = None
+    fork = DUPLICATES.get('fork')
     for i in range(1, n + 1):
+        if fork and i == fork[0] + 1:
+            # a checkpoint copy taken mid-stream carries on with the stream (the original is dropped): same law, same p
+            import copy
+            s = copy.deepcopy(s) if fork[1] == 'deep' else copy.copy(s)
         if dup:
             # equal observations (a constant / low-cardinality stream): arrivals are identified by the target stored with them
             s.update({'v': i % 2}, i)
@@ -59,6 +64,7 @@ def run_enum(case):
     k, n, m, j = case['k'], case['n'], case['m'], case['j']
     default = case.get('default', False)
     DUPLICATES['on'] = bool(case.get('duplicates'))
+    DUPLICATES['fork'] = case.get('fork')
     p_frac = Fraction(1, k) if default else Fraction(j, m)
     p_arg = None if default else (j / m if j not in (0, m) else (0 if j == 0 else 1))
     incl = {}
@@ -185,6 +191,8 @@ def run(ctx):
                     if per ** extra <= 30000:
                         break
                 case = {'k': k, 'n': k + extra, 'm': m, 'j': j, 'default': default, 'duplicates': (k + m + j) % 2 == 1}
+                if (k + 2 * m + j) % 3 == 0:
+                    case['fork'] = [k + (j % 2), 'deep' if (m + j) % 4 else 'shallow']     # copied after k or k+1 arrivals
                 res = run_enum(case)
                 paths = res.detail.get('paths', []) if isinstance(res.detail, dict) else []
                 if isinstance(res.detail, dict):
